@@ -4,9 +4,9 @@ package c04
 import (
 	"fmt"
 	"os"
-	"syscall"
 	"reflect"
 	"sync"
+	"syscall"
 	"testing"
 	"time"
 
